@@ -288,6 +288,10 @@ func rejectReasons(c *codec, M []byte) string {
 // mode "one:<idx>:<path>" runs a single (huge) mutant through one path. The index of the case
 // being run is written to <out>.journal before the call, so that a crash is attributed.
 func childMain(mode, out string) int {
+	// soft heap limit well under the ulimit: garbage from large (but not "huge") declared lengths is collected by
+	// allocation assists even when the machine is so loaded that the background collector falls behind - a child once
+	// died under ulimit -v with 5 GiB of garbage "in use" and the case then running was blamed for it
+	debug.SetMemoryLimit(2 << 30)
 	thorough := false
 	for i, a := range os.Args {
 		if a == "-tier" && i+1 < len(os.Args) && os.Args[i+1] == "thorough" {
